@@ -140,7 +140,7 @@ func (core *JApiCore) compileUserTypeWithAllDependencies(name string) error {
 			}
 
 			if err := core.checkUserTypeDuringBuild(n, ut); err != nil {
-				return jschemaToJAPIError(err, dd.GetValue(n))
+				return jschemaToJAPIError(err, incorrectUserTypeDirective(dd, err, n))
 			}
 		}
 
@@ -152,12 +152,25 @@ func (core *JApiCore) compileUserTypeWithAllDependencies(name string) error {
 	// Check user type is correct.
 	// We should do it here 'cause it will simplify further processing.
 	if err := currUT.Check(); err != nil {
-		return jschemaToJAPIError(err, dd.GetValue(name))
+		return jschemaToJAPIError(err, incorrectUserTypeDirective(dd, err, name))
 	}
 
 	core.userTypes.Set(name, currUT)
 
 	return nil
+}
+
+// incorrectUserTypeDirective returns the directive of the user type the check
+// error belongs to: a check follows references, and the positions in its error
+// are relative to the type it names, which need not be the type being checked.
+func incorrectUserTypeDirective(dd *directive.Directives, err error, name string) *directive.Directive {
+	var e kit.Error
+	if errors.As(err, &e) && e.IncorrectUserType() != "" {
+		if d := dd.GetValue(e.IncorrectUserType()); d != nil {
+			return d
+		}
+	}
+	return dd.GetValue(name)
 }
 
 func (core *JApiCore) checkUserTypeDuringBuild(name string, ut jschemaLib.Schema) error {
